@@ -62,6 +62,8 @@ def gen_cases(rng, n):
             c["min_count"] = mc
         if func in ("var", "nanvar"):
             c["ddof"] = 0
+        if rng.random() < 0.35:
+            c["sort"] = False        # one slot per requested label IN THE REQUESTED ORDER
         plan = rng.choice(["eager", "eager", "map-reduce", "cohorts", "auto", "map-reduce-late"])
         if plan != "eager":
             c["chunks"] = [list(G.random_composition(rng, m, 4))]
